@@ -19,6 +19,8 @@ def _vc(name, variables=None, label=None):
     return ("vc", name, variables, label)
 
 
+WI_RADIX = [_vc("wi_radix", {"T": "u64", "BITS": "64"}, "wi_radix-u64"),
+            _vc("wi_radix", {"T": "u32", "BITS": "32"}, "wi_radix-u32")]
 DIV128_Q = [_vc("div128", {"FEATURES": "radix"}, "div128-radix")]
 DIV128_T = [_vc("div128", {"FEATURES": "radix"}, "div128-radix"),
             _vc("div128", {"FEATURES": "power-of-two"}, "div128-pow2"),
@@ -56,7 +58,7 @@ PROPS["C03"] = dict(
                "all 35 radices) prove quotient/remainder for all n; every radix^2 digit table entry and every step / "
                "divisor constant is a discharged row obligation; Kani proves small-width entry points on the real crates "
                "over their full domains.",
-    verus_quick=DIV128_Q, verus_thorough=DIV128_T,
+    verus_quick=DIV128_Q + WI_RADIX, verus_thorough=DIV128_T + WI_RADIX,
     rows_quick=["wi-digit-tables", "util-step"],
     assumptions=["core::fmt::Display prints the canonical decimal numeral (not verified here)"],
 )
